@@ -51,6 +51,10 @@ func replayOne(t *testing.T, rf *vstat.ReplayFile) string {
 		return "replay file is for property " + rf.Property + ", this engine decides C11"
 	}
 	switch {
+	case rf.Part == "large":
+		return replayLarge(rf)
+	case rf.Part == "stress":
+		return replayStress(t, rf)
 	case rf.Kind == "seq" || rf.Part == "exhaustive":
 		var sc SeqScenario
 		if err := json.Unmarshal(rf.Scenario, &sc); err != nil {
